@@ -26,7 +26,7 @@ def sh(cmd, cwd=None, env=None, timeout=3600):
 
 def main():
     wt, name, pid = sys.argv[1:4]
-    checks = sys.argv[4:] or [pid]
+    checks = list(dict.fromkeys([pid] + sys.argv[4:]))
     rc, diff = sh(["git", "diff"], cwd=wt)
     if not diff.strip():
         print("no change in worktree")
